@@ -301,4 +301,192 @@ def cookedAt (k : Kind) (c : Cfg) (dwo : Bool) (legacy v5 : Bytes) (offset base 
   if sec.length < offset then .err .rUnexpectedEof
   else cookedAll k c f addr addrBase base (sec.drop offset)
 
+/-! ## `src/read/dwarf.rs`: unit bases and the attribute-level helpers
+
+A DIE is seen through `Attribute::value()` (the normalisation of forms is property C03's
+subject): the Model takes the list of `(name, normalised value)` pairs in DIE order. -/
+
+/-- the attribute names the helpers look at -/
+inductive AttrName where
+  | lowPc | highPc | ranges | location
+  | addrBase      -- `DW_AT_addr_base` and `DW_AT_GNU_addr_base`
+  | rnglistsBase  -- `DW_AT_rnglists_base` and `DW_AT_GNU_ranges_base`
+  | loclistsBase
+  | other
+  deriving DecidableEq, Repr
+
+/-- the normalised attribute values the helpers distinguish -/
+inductive AttrVal where
+  /-- `AttributeValue::Addr` -/
+  | addr (a : Nat)
+  /-- `AttributeValue::DebugAddrIndex` -/
+  | addrx (i : Nat)
+  /-- `AttributeValue::Udata` (constant-class `DW_AT_high_pc`) -/
+  | udata (v : Nat)
+  /-- a section offset: `RangeListsRef` / `LocationListsRef` / `DebugAddrBase` /
+  `DebugRngListsBase` / `DebugLocListsBase`, depending on the attribute name -/
+  | secOffset (o : Nat)
+  /-- `AttributeValue::DebugRngListsIndex` / `DebugLocListsIndex` -/
+  | listx (i : Nat)
+  /-- any other value -/
+  | other
+  deriving DecidableEq, Repr
+
+abbrev Attrs := List (AttrName × AttrVal)
+
+/-- the sections the helpers read -/
+structure Sections where
+  debugAddr : Bytes
+  debugRanges : Bytes
+  debugRnglists : Bytes
+  debugLoc : Bytes
+  debugLoclists : Bytes
+
+/-- the fields of `Unit` (+ `Dwarf::file_type`) the helpers use -/
+structure UnitCtx where
+  cfg : Cfg
+  /-- `dwarf.file_type == DwarfFileType::Dwo` -/
+  dwo : Bool
+  lowPc : Nat
+  addrBase : Nat
+  rnglistsBase : Nat
+  loclistsBase : Nat
+  deriving Repr
+
+/-- `DebugRngListsBase::default_for_encoding_and_file` = `DebugLocListsBase::…`: in a DWARF 5
+`.dwo` file the base attribute is omitted and the lists follow the first table header -/
+def defaultListsBase (c : Cfg) (dwo : Bool) : Nat :=
+  if c.version ≥ 5 ∧ dwo then
+    match c.format with
+    | .dwarf32 => 12   -- initial_length_size 4 + 2 + 1 + 1 + 4
+    | .dwarf64 => 20   -- initial_length_size 12 + …
+  else 0
+
+/-- `Dwarf::attr_address` -/
+def attrAddress (u : UnitCtx) (secs : Sections) : AttrVal → Out (Option Nat)
+  | .addr a => .ok (some a)
+  | .addrx i => do
+    let a ← getAddress u.cfg secs.debugAddr u.addrBase i
+    pure (some a)
+  | _ => .ok none
+
+/-- the attribute loop of `Unit::new_with_abbreviations` over the root DIE, as far as these helpers
+are concerned: later attributes override earlier ones, a base attribute counts only as a section
+offset, `DW_AT_low_pc` is resolved last (with the final `addr_base`; an indexed address that cannot
+be looked up fails the construction of the unit). -/
+def unitBases (c : Cfg) (dwo : Bool) (secs : Sections) (root : Attrs) : Out UnitCtx :=
+  let step (st : UnitCtx × Option AttrVal) (a : AttrName × AttrVal) : UnitCtx × Option AttrVal :=
+    match a with
+    | (.lowPc, v) => (st.1, some v)
+    | (.addrBase, .secOffset o) => ({ st.1 with addrBase := o }, st.2)
+    | (.rnglistsBase, .secOffset o) => ({ st.1 with rnglistsBase := o }, st.2)
+    | (.loclistsBase, .secOffset o) => ({ st.1 with loclistsBase := o }, st.2)
+    | _ => st
+  let init : UnitCtx :=
+    { cfg := c, dwo := dwo, lowPc := 0, addrBase := 0,
+      rnglistsBase := defaultListsBase c dwo, loclistsBase := defaultListsBase c dwo }
+  let (u, low) := root.foldl step (init, none)
+  match low with
+  | none => .ok u
+  | some v => do
+    match ← attrAddress u secs v with
+    | some a => pure { u with lowPc := a }
+    | none => pure u
+
+/-- `Dwarf::ranges_offset_from_raw`: GNU split DWARF v4 offsets are relative to
+`DW_AT_GNU_ranges_base` (`usize::wrapping_add`) -/
+def rangesOffsetFromRaw (u : UnitCtx) (off : Nat) : Nat :=
+  if u.dwo ∧ u.cfg.version < 5 then (off + u.rnglistsBase) % 2 ^ 64 else off
+
+/-- `Dwarf::attr_ranges_offset` -/
+def attrRangesOffset (u : UnitCtx) (secs : Sections) : AttrVal → Out (Option Nat)
+  | .secOffset o => .ok (some (rangesOffsetFromRaw u o))
+  | .listx i => do
+    let o ← getOffset u.cfg secs.debugRnglists u.rnglistsBase i
+    pure (some o)
+  | _ => .ok none
+
+/-- `Dwarf::attr_locations_offset` -/
+def attrLocationsOffset (u : UnitCtx) (secs : Sections) : AttrVal → Out (Option Nat)
+  | .secOffset o => .ok (some o)
+  | .listx i => do
+    let o ← getOffset u.cfg secs.debugLoclists u.loclistsBase i
+    pure (some o)
+  | _ => .ok none
+
+/-- `Dwarf::ranges(unit, offset)` drained: base address `unit.low_pc`, `.debug_addr` at
+`unit.addr_base` -/
+def unitRangesAt (u : UnitCtx) (secs : Sections) (offset : Nat) : Out (List (Ev Item)) :=
+  cookedAt .rng u.cfg false secs.debugRanges secs.debugRnglists offset u.lowPc secs.debugAddr u.addrBase
+
+/-- `Dwarf::locations(unit, offset)` drained: `locations_dwo` in a `.dwo` file -/
+def unitLocationsAt (u : UnitCtx) (secs : Sections) (offset : Nat) : Out (List (Ev Item)) :=
+  cookedAt .loc u.cfg u.dwo secs.debugLoc secs.debugLoclists offset u.lowPc secs.debugAddr u.addrBase
+
+/-- `Dwarf::attr_locations` drained; `none` = the attribute is not a location list -/
+def attrLocations (u : UnitCtx) (secs : Sections) (v : AttrVal) : Out (Option (List (Ev Item))) := do
+  match ← attrLocationsOffset u secs v with
+  | some o => do
+    let evs ← unitLocationsAt u secs o
+    pure (some evs)
+  | none => pure none
+
+/-- what `RangeIter` holds: `RangeIterInner::{Single, List}` (the list already drained) -/
+inductive RangesResult where
+  | single (r : Option (Nat × Nat))
+  | list (evs : List (Ev Item))
+  deriving DecidableEq, Repr
+
+/-- loop state of `Dwarf::die_ranges` -/
+structure DieAcc where
+  lowPc : Option Nat := none
+  highPc : Option Nat := none
+  size : Option Nat := none
+
+/-- the `for attr in entry.attrs()` loop of `Dwarf::die_ranges`: the first usable `DW_AT_ranges`
+ends it with the list, an unusable address form or a failing lookup ends it with an error -/
+def dieRangesLoop (u : UnitCtx) (secs : Sections) : Attrs → DieAcc → Out (DieAcc ⊕ List (Ev Item))
+  | [], acc => .ok (.inl acc)
+  | (.lowPc, v) :: rest, acc => do
+    match ← attrAddress u secs v with
+    | some a => dieRangesLoop u secs rest { acc with lowPc := some a }
+    | none => .err .rUnsupportedAttributeForm
+  | (.highPc, .udata val) :: rest, acc => dieRangesLoop u secs rest { acc with size := some val }
+  | (.highPc, v) :: rest, acc => do
+    match ← attrAddress u secs v with
+    | some a => dieRangesLoop u secs rest { acc with highPc := some a }
+    | none => .err .rUnsupportedAttributeForm
+  | (.ranges, v) :: rest, acc => do
+    match ← attrRangesOffset u secs v with
+    | some o => do
+      let evs ← unitRangesAt u secs o
+      pure (.inr evs)
+    | none => dieRangesLoop u secs rest acc
+  | _ :: rest, acc => dieRangesLoop u secs rest acc
+
+/-- `Dwarf::die_ranges` (and `Dwarf::unit_ranges` on the root DIE's attributes). The single
+`low_pc..high_pc` range is returned as it is: NOT filtered for emptiness or tombstones. -/
+def dieRangesCore (u : UnitCtx) (secs : Sections) (attrs : Attrs) : Out RangesResult := do
+  match ← dieRangesLoop u secs attrs {} with
+  | .inr evs => pure (.list evs)
+  | .inl acc =>
+    match acc.lowPc with
+    | none => pure (.single none)
+    | some b =>
+      match acc.size with
+      | some sz =>
+        if 2 ^ 64 ≤ b + sz then .err .rAddressOverflow      -- checked_add
+        else pure (.single (some (b, b + sz)))
+      | none => pure (.single (acc.highPc.map fun e => (b, e)))
+
+/-- everything `RangeIter::next` returns until `Ok(None)` -/
+def RangesResult.events : RangesResult → List (Ev Item)
+  | .single none => []
+  | .single (some (b, e)) => [.item ⟨b, e, []⟩]
+  | .list evs => evs
+
+def dieRanges (u : UnitCtx) (secs : Sections) (attrs : Attrs) : Out (List (Ev Item)) := do
+  let r ← dieRangesCore u secs attrs
+  pure r.events
+
 end Gimli.Lists
